@@ -89,20 +89,26 @@ DefaultMatrix == NewMatrix(AllSym, TRUE, TRUE)
 
 Out(st, hooks, ret) == [st |-> st, hooks |-> hooks, ret |-> ret]
 
-EvLookup(b, found) == << "lookup", b.view, b.seg, Key(b), IF found THEN 1 ELSE 0 >>
-EvInsert(b, present) == << "insert", b.view, b.seg, Key(b), IF present THEN 1 ELSE 0 >>
+\* call-outs; k = Key(b) is passed in so that it is computed once per call
+EvLookupK(b, k, found) == << "lookup", b.view, b.seg, k, IF found THEN 1 ELSE 0 >>
+EvInsertK(b, k, present) == << "insert", b.view, b.seg, k, IF present THEN 1 ELSE 0 >>
+EvLookup(b, found) == EvLookupK(b, Key(b), found)
+EvInsert(b, present) == EvInsertK(b, Key(b), present)
 EvClear == << "clear" >>
 
-Find(st, b) == { e \in st.cache : e.view = b.view /\ e.seg = b.seg /\ e.key = Key(b) }
+\* the entries of map [b.view][b.seg] stored under key k
+FindK(st, b, k) == { e \in st.cache : e.view = b.view /\ e.seg = b.seg /\ e.key = k }
+Find(st, b) == FindK(st, b, Key(b))
 \* get_cached_proj_matrix_elems_for_one_bin: no event and no hit when the cache is disabled
-LookupEvents(st, b) == IF st.cacheOn THEN << EvLookup(b, Find(st, b) # {}) >> ELSE << >>
-LookupHit(st, b) == st.cacheOn /\ Find(st, b) # {}
-CachedRow(st, b) == (CHOOSE e \in Find(st, b) : TRUE).row
+\* (f = FindK(st, b, k))
+LookupEvents(st, b, k, f) == IF st.cacheOn THEN << EvLookupK(b, k, f # {}) >> ELSE << >>
+LookupHit(st, f) == st.cacheOn /\ f # {}
+CachedRow(f) == (CHOOSE e \in f : TRUE).row
 \* cache_proj_matrix_elems_for_one_bin: unordered_map::insert never replaces an existing entry
-InsertEvents(st, b) == IF st.cacheOn THEN << EvInsert(b, Find(st, b) # {}) >> ELSE << >>
-Inserted(st, b, row) ==
-  IF st.cacheOn /\ Find(st, b) = {}
-  THEN [st EXCEPT !.cache = @ \cup { [view |-> b.view, seg |-> b.seg, key |-> Key(b), bin |-> b, row |-> row] }]
+InsertEvents(st, b, k, f) == IF st.cacheOn THEN << EvInsertK(b, k, f # {}) >> ELSE << >>
+Inserted(st, b, k, f, row) ==
+  IF st.cacheOn /\ f = {}
+  THEN [st EXCEPT !.cache = @ \cup { [view |-> b.view, seg |-> b.seg, key |-> k, bin |-> b, row |-> row] }]
   ELSE st
 
 \* enable_cache, store_only_basic_bins_in_cache: only flip the mode, the content stays
@@ -124,23 +130,27 @@ DoSetUp(st, gen, c, g) ==
 DoGet(st, b) ==
   LET bb == FindBasic(st.c, st.esw, b)
       op == FindOp(st.c, st.g, st.esw, b)
+      kb == Key(b)
+      kbb == Key(bb)
+      fb == FindK(st, b, kb)             \* what the map holds for the bin
+      fbb == FindK(st, bb, kbb)          \* ... and for its basic bin
   IN IF st.basicOnly THEN
        \* find symmetry operator and basic bin; check if basic bin is in cache
-       LET l1 == LookupEvents(st, bb) IN
-       IF LookupHit(st, bb) THEN Out(st, l1, TransformId(op, CachedRow(st, bb)))
+       LET l1 == LookupEvents(st, bb, kbb, fbb) IN
+       IF LookupHit(st, fbb) THEN Out(st, l1, TransformId(op, CachedRow(fbb)))
        ELSE IF ~st.done THEN Out(st, l1, NoRow)
        ELSE \* compute the basic row, cache it, then transform to the original bin
-            Out(Inserted(st, bb, Row(st.gen, bb)), l1 \o InsertEvents(st, bb), TransformId(op, Row(st.gen, bb)))
+            Out(Inserted(st, bb, kbb, fbb, Row(st.gen, bb)), l1 \o InsertEvents(st, bb, kbb, fbb), TransformId(op, Row(st.gen, bb)))
      ELSE
        \* if the bin is in the cache, that is the row
-       LET l1 == LookupEvents(st, b) IN
-       IF LookupHit(st, b) THEN Out(st, l1, CachedRow(st, b))
+       LET l1 == LookupEvents(st, b, kb, fb) IN
+       IF LookupHit(st, fb) THEN Out(st, l1, CachedRow(fb))
        ELSE \* else check if the basic bin is
-            LET l2 == LookupEvents(st, bb) IN
-            IF LookupHit(st, bb)
-            THEN LET r == TransformId(op, CachedRow(st, bb)) IN Out(Inserted(st, b, r), l1 \o l2 \o InsertEvents(st, b), r)
+            LET l2 == LookupEvents(st, bb, kbb, fbb) IN
+            IF LookupHit(st, fbb)
+            THEN LET r == TransformId(op, CachedRow(fbb)) IN Out(Inserted(st, b, kb, fb, r), l1 \o l2 \o InsertEvents(st, b, kb, fb), r)
             ELSE IF ~st.done THEN Out(st, l1 \o l2, NoRow)
-            ELSE LET r == TransformId(op, Row(st.gen, bb)) IN Out(Inserted(st, b, r), l1 \o l2 \o InsertEvents(st, b), r)
+            ELSE LET r == TransformId(op, Row(st.gen, bb)) IN Out(Inserted(st, b, kb, fb, r), l1 \o l2 \o InsertEvents(st, b, kb, fb), r)
 
 (* ------------------------------ invariants ------------------------------ *)
 \* every cached entry is the row of its bin for the current geometry, under the key of that bin,
